@@ -63,6 +63,50 @@ def by_hand(adapter, d, X):
     return out
 
 
+def results_are_values_and_vector_data(ctx):
+    """(a) what transform returned stays what it was when the estimator is used again on other data of the same shape; (b) for a model
+    whose data matrix has ONE column (no control, one sensor with one reading) a plain vector of samples is that column"""
+    for i in range(2 if ctx.quick else 8):
+        d = gen.tame_definition(ctx.rng, n_control=1, n_sensors=2, n_calib=0)
+        process, sensor = eh.make_noises(ctx.rng, d)
+        width = len(d.control) + sum(len(rd) for rd in d.sensors.values())
+        X1 = np.array([[float(gen.dyadic(ctx.rng, -2, 2)) for _ in range(width)] for _ in range(4)], dtype=float)
+        X2 = X1 * 1.5 + 0.25
+        case = {"def": d.describe(), "stream": "results-are-values"}
+        ctx.case(case, True); ctx.count("stream=results-are-values")
+        try:
+            with fk.quiet():
+                ad = make_adapter(d, process, sensor, {}, 4.0)
+                r1 = ad.transform(X1)
+                first = np.array(r1, dtype=float).copy()
+                ad.transform(X2); ad.mahalanobis(X2); ad.score(X2)
+            if not np.array_equal(np.array(r1, dtype=float), first):
+                ctx.fail("transform-result-overwritten", "the array returned by transform(X1) changed when the estimator was used on other data of the same shape", case)
+        except Exception as e:
+            ctx.fail(f"adapter-raises:{fk.exc_kind(e)}", repr(e)[:300], case)
+    # (b)
+    x, v, dt = sympy.symbols("qx qv dt")
+    d = gen.Definition(dt, [x, v], [], [], {x: x + dt * v, v: v * sympy.Rational(9, 10)}, {"only": {"r": x + v}})
+    process, sensor = {}, {"only": {"r": F(1, 2)}}
+    col = np.array([[0.5], [0.75], [-0.25], [1.5], [0.125]], dtype=float)
+    case = {"def": d.describe(), "stream": "vector-of-samples", "samples": col.reshape(-1).tolist()}
+    ctx.case(case, True); ctx.count("stream=vector-of-samples")
+    try:
+        with fk.quiet():
+            ad = make_adapter(d, process, sensor, {}, None)
+            Tc = np.asarray(ad.transform(col), dtype=float)
+            Tv = np.asarray(ad.transform(col.reshape(-1)), dtype=float)
+            Tl = np.asarray(ad.transform(col.reshape(-1).tolist()), dtype=float)
+            H = np.array(by_hand(ad, d, col.tolist()), dtype=float)
+        for label, T in (("an (n, 1) column", Tc), ("a 1-D array of n samples", Tv), ("a flat list of n samples", Tl)):
+            if T.shape != H.shape or float(np.max(np.abs(T - H))) > 1e-9 * (1 + float(np.max(np.abs(H)))):
+                ctx.fail("transform-vs-byhand:vector-data", f"data given as {label}: transform returns shape {T.shape} {T.tolist()}, the exported filter run by "
+                         f"hand over the n samples gives {H.tolist()}", case)
+                break
+    except Exception as e:
+        ctx.fail(f"adapter-raises:{fk.exc_kind(e)}:vector-data", repr(e)[:300], case)
+
+
 def special_configurations_and_data(ctx):
     """(a) the configuration given as a plain dict with filtering disabled (`{"innovation_filtering": None}`), data with a gross
     outlier row: transform is still the exported filter run by hand; (b) data the model predicts almost exactly (total NIS far
@@ -227,6 +271,7 @@ def run(ctx):
                            "X": case["X"][:LEAN_ROWS]})
             pending.append((idx, T1, k, d, case))
     special_configurations_and_data(ctx)
+    results_are_values_and_vector_data(ctx)
     ans = drv.run()
     for idx, T1, k, d, info in pending:
         a = ans[idx]
